@@ -66,7 +66,7 @@ Record zobs := mkZObs {
   zo_cbs : list nat;         (* readers that own a callback in some sf.onDatas, sorted *)
   zo_closed : bool;          (* hasReaders closed *)
   zo_cur : nat;              (* s.subStream *)
-  zo_rtsp : bool;            (* s.rtspStream != nil *)
+  zo_rtsp : nat;             (* distinct ServerStreams seen in s.rtspStream or handed out by RTSPStream(): 0, 1 *)
   zo_procs : list pobs;      (* per call: returned / panicked / neither yet *)
 }.
 (* frozen: goroutines the driver itself holds back (its own lock holders); held: the driver held the write lock all the
@@ -316,7 +316,7 @@ Definition zshared_matches (s : SL.state) (o : zobs) : bool :=
   && list_eqb Nat.eqb (sort (SL.readers (SL.g s))) (zo_cbs o)
   && Bool.eqb (SL.has_closed (SL.g s)) (zo_closed o)
   && Nat.eqb (SL.cur (SL.g s)) (zo_cur o)
-  && Bool.eqb (SL.rtsp (SL.g s)) (zo_rtsp o).
+  && Nat.eqb (if SL.rtsp (SL.g s) then 1 else 0) (zo_rtsp o).
 
 Definition zprocs_match (s : SL.state) (o : zobs) : bool :=
   list_eqb pobs_eqb (map pobs_of (SL.procs s)) (zo_procs o).
@@ -373,16 +373,18 @@ Definition returned (evs : list sev) (c : Z) : bool :=
 (* ---- Stream level, on the observations alone.  Every observation is made while holding Stream.mutex, so:
    a registered reader means hasReaders is closed (C40_stream_handshake; otherwise a second first-joiner closes the
    channel again: C40_stream_unlock_before_check_refuted), the reader table and the callback tables agree, nothing
-   that the mutex guards has changed while the driver held the write lock, no call has panicked, nothing the driver
+   that the mutex guards has changed while the driver held the mutex, every RTSPStream() call got the same ServerStream,
+   no call has panicked, nothing the driver
    waited for timed out, and at the end every call has returned ------------------------------------------------- *)
 Definition zshared_eqb (a b : zobs) : bool :=
   list_eqb Nat.eqb (zo_readers a) (zo_readers b) && list_eqb Nat.eqb (zo_cbs a) (zo_cbs b)
-  && Bool.eqb (zo_closed a) (zo_closed b) && Nat.eqb (zo_cur a) (zo_cur b) && Bool.eqb (zo_rtsp a) (zo_rtsp b).
+  && Bool.eqb (zo_closed a) (zo_closed b) && Nat.eqb (zo_cur a) (zo_cur b) && Nat.eqb (zo_rtsp a) (zo_rtsp b).
 
 Definition zobs_bad (o : zobs) : bool :=
   existsb (fun x => match x with POPanic => true | _ => false end) (zo_procs o)
   || (match zo_readers o with [] => false | _ => true end && negb (zo_closed o))
-  || negb (list_eqb Nat.eqb (zo_readers o) (zo_cbs o)).
+  || negb (list_eqb Nat.eqb (zo_readers o) (zo_cbs o))
+  || (2 <=? zo_rtsp o).
 
 Fixpoint zspec_segs (prev : option zobs) (segs : list zseg) : bool :=
   match segs with
